@@ -47,8 +47,12 @@ META = dict(
 )
 
 
+from .. import nnm_rules  # noqa: E402
+
+
 def run(chk):
     idx = chk.idx
+    nnm_rules.rule_stateless(chk, "C05.R6")  # first: its refutations stand even if a later rule cannot read the code
     reg = nnm.registry(idx)
     fl = nnm.flow(idx, reg)
     chk.explain(
